@@ -184,13 +184,15 @@ def run(tier, only=None):
     fr = check_exc(pmap(_fresh_job, [(k, p) for k in kinds for p in ("p0", "p1", "p2")]))
     for kind, p, val in fr:
         lifecycle._FRESH[(kind, p, "auto")] = val
-    if tier == "quick" and len(hs) > 450:
-        # every-change budget: a seeded sample of the emitted histories (the thorough tier replays all of them)
+    cap = 450 if tier == "quick" else 2500
+    if len(hs) > cap:
+        # budget: a seeded sample of the emitted histories (quick: 450 of the depth-4 ones, thorough: 2500 of the depth-6 and
+        # long random ones), on every model kind; the pair-pattern histories and the model counterexamples are always all replayed
         import numpy as np
 
         from ..common import seed
 
-        pick = np.random.default_rng(seed() + 3).choice(len(hs), 450, replace=False)
+        pick = np.random.default_rng(seed() + 3).choice(len(hs), cap, replace=False)
         hs = [hs[i] for i in sorted(pick)]
     hs = hs + [h for h in PAIRS if json.dumps(h) not in {json.dumps(x) for x in hs}]
     for k in kinds:
